@@ -8,6 +8,7 @@
                                            <dim> = <min> <max> <v>... | X | Z | F <v>...
      R <dim> | <dim> ...                   P with one frame, then linepart::array::set(-1)
      A <n> <dim> | <dim> ...               apply_data without part records
+     D <raw.usr.cut.trim> ... : <dim> | ..  apply_data WITH the given part records on sum(usr) points
      W <v> ...                             linepart::set_cut / set_trim / cut() / trim()
    value syntax: <num>/<exp>[*<count>]  =  num * 2^-exp, repeated count times.
    Prints "M <id> tok..." (mechanism model) and "S <id> tok..." (specification). *)
@@ -182,6 +183,22 @@ let () =
       let sts = stores_of toks in
       let n = int_of_string n in
       (match apply_data_plain (z_of_int n) sts with
+       | Ok (pts, proc) -> Printf.printf "M %s proc=%d %s\n" id (z_int proc) (show_points pts)
+       | Fault -> Printf.printf "M %s FAULT\n" id);
+      Printf.printf "S %s %s\n" id (String.concat " " (List.map spec_dim sts))
+    | id :: "D" :: toks ->
+      let rec cut_at l acc = match l with
+        | [] -> (List.rev acc, [])
+        | ":" :: r -> (List.rev acc, r)
+        | t :: r -> cut_at r (t :: acc) in
+      let (ptoks, dtoks) = cut_at toks [] in
+      let ps = List.map (fun t -> match String.split_on_char '.' t with
+        | [r; u; c; tr] -> { raw = z_of_int (int_of_string r); usr = z_of_int (int_of_string u);
+                             cut = z_of_int (int_of_string c); trim = z_of_int (int_of_string tr) }
+        | _ -> failwith "part") ptoks in
+      let sts = stores_of dtoks in
+      let n = sum_of (fun p -> p.usr) ps in
+      (match apply_data_parts ps (z_of_int n) sts with
        | Ok (pts, proc) -> Printf.printf "M %s proc=%d %s\n" id (z_int proc) (show_points pts)
        | Fault -> Printf.printf "M %s FAULT\n" id);
       Printf.printf "S %s %s\n" id (String.concat " " (List.map spec_dim sts))
